@@ -1819,7 +1819,7 @@ def make_module(it, modname):
     if modname.startswith("dataiter."):
         return it.repo_module(modname.replace(".", "/") + ".py")
     if modname in ("json", "csv", "pickle", "random", "sys", "codecs", "math", "statistics", "collections",
-                   "datetime", "numpy", "numpy.dtypes", "warnings"):
+                   "datetime", "numpy", "numpy.dtypes", "warnings", "numba", "numba.extending"):
         from . import models_lib
         return models_lib.make_module(it, modname)
     raise Unsupported(f"module {modname} not modelled")
